@@ -24,7 +24,8 @@ RULE = (
     "of the other) or a built-in feature observer / composite (several of one "
     "type), unsubscribe one, re-subscribe one, create a HistoryObserver "
     "/ UnscheduledOperationsObserver (singletons, possibly a second time), "
-    "create_or_get_observer(type, condition)}. Oracle: a model of the "
+    "create_or_get_observer(type, condition), plan: a recorder unsubscribes "
+    "itself or another one from inside its k-th callback}. Oracle: a model of the "
     "subscriber list predicts for every event exactly which observers are "
     "called, in which order, how often and with which argument; inside every "
     "update callback a snapshot of the dispatcher (tracking vectors, schedule, "
@@ -48,10 +49,21 @@ LOG = []
 
 class Recorder(DispatcherObserver):
     _is_singleton = False
+    is_recorder = True
 
     def __init__(self, dispatcher, *, subscribe=True, tag=0):
         super().__init__(dispatcher, subscribe=subscribe)
         self.tag = tag
+        self.calls = 0
+        self.quit_at = None  # unsubscribe `victim` during the quit_at-th callback
+        self.victim = None
+
+    def _maybe_unsubscribe(self):
+        self.calls += 1
+        if self.quit_at is not None and self.calls == self.quit_at:
+            target = self.victim if self.victim is not None else self
+            if any(target is s for s in self.dispatcher.subscribers):
+                self.dispatcher.unsubscribe(target)
 
     def update(self, scheduled_operation):
         LOG.append(
@@ -62,13 +74,38 @@ class Recorder(DispatcherObserver):
                 obs.dispatcher_snapshot(self.dispatcher),
             )
         )
+        self._maybe_unsubscribe()
 
     def reset(self):
         LOG.append((id(self), "reset", None, None))
+        self._maybe_unsubscribe()
 
 
 class SubRecorder(Recorder):
     pass
+
+
+def _rec_feature_class():
+    from job_shop_lib.dispatching.feature_observers import FeatureObserver
+
+    class RecFeature(FeatureObserver):
+        """A recording feature observer (can be a component of a composite)."""
+
+        is_recorder = True
+        quit_at = None
+        victim = None
+        tag = -1
+
+        def update(self, scheduled_operation):
+            LOG.append((id(self), "update", fp.sop(scheduled_operation), obs.dispatcher_snapshot(self.dispatcher)))
+
+        def reset(self):
+            LOG.append((id(self), "reset", None, None))
+
+    return RecFeature
+
+
+RecFeature = _rec_feature_class()
 
 
 def strategy(tier):
@@ -83,7 +120,8 @@ def strategy(tier):
         (2, st.tuples(st.just("sub"), st.integers(0, 9)).map(list)),
         (2, st.tuples(st.just("singleton"), st.integers(0, 1), st.booleans()).map(list)),
         (3, st.tuples(st.just("cog"), st.integers(0, 3), st.integers(0, 4)).map(list)),
-        (3, st.tuples(st.just("builtin"), st.integers(0, 4), st.booleans()).map(list)),
+        (3, st.tuples(st.just("builtin"), st.integers(0, 5), st.booleans()).map(list)),
+        (2, st.tuples(st.just("plan"), st.integers(0, 9), st.integers(1, 3), st.integers(0, 9)).map(list)),
     )
     return st.fixed_dictionaries(
         {
@@ -126,6 +164,25 @@ def check_case(case, ctx):
                 f"{where}: HistoryObserver.history {[fp.sop(s) for s in hist[0].history]} expected {hist[1]}",
             )
 
+    model_calls = {}
+
+    def round_expectation(what, arg):
+        """Simulates one notification round on the model of the subscriber
+        list: every observer subscribed at the start is notified once, in
+        order, unless it was unsubscribed before its turn; planned
+        unsubscriptions inside callbacks take effect immediately."""
+        want = []
+        for o in list(expected_subs):
+            if not any(o is x for x in expected_subs):
+                continue
+            if getattr(o, "is_recorder", False):
+                want.append((id(o), what, arg))
+                model_calls[id(o)] = model_calls.get(id(o), 0) + 1
+                if getattr(o, "quit_at", None) is not None and model_calls[id(o)] == o.quit_at:
+                    target = o.victim if o.victim is not None else o
+                    expected_subs[:] = [x for x in expected_subs if x is not target]
+        return want
+
     for idx, ev in enumerate(events):
         where = f"event {idx} {ev}"
         del LOG[:]
@@ -143,9 +200,9 @@ def check_case(case, ctx):
             accepted += 1
             want_sop = (fp.op(instance.jobs[j][p]), s, m)
             after = obs.dispatcher_snapshot(d)
-            recs = [x for x in expected_subs if isinstance(x, Recorder)]
+            recs = [x for x in expected_subs if getattr(x, "is_recorder", False)]
             got = [(e[0], e[1], e[2]) for e in LOG]
-            want = [(id(x), "update", want_sop) for x in recs]
+            want = round_expectation("update", want_sop)
             ctx.check(
                 got == want,
                 "notifications",
@@ -154,8 +211,9 @@ def check_case(case, ctx):
             )
             for e in LOG:
                 inside = e[3]
+                # (entry 6 is the subscriber list, which callbacks may change)
                 ctx.check(
-                    inside == after,
+                    inside[:6] + inside[7:] == after[:6] + after[7:],
                     "pre-state-visible",
                     f"{where}: dispatcher as seen inside update() differs from its state after dispatch(): "
                     f"{obs.diff_snapshots(inside, after)}",
@@ -179,7 +237,7 @@ def check_case(case, ctx):
             if hist is not None:
                 hist[1].append(want_sop)
             for x in recs:
-                intervals[id(x)].append(accepted)
+                intervals.setdefault(id(x), []).append(accepted)
         elif kind == "x":
             before = obs.dispatcher_snapshot(d)
             later = [(j, p) for (j, p) in model.unscheduled() if p > model.next[j]]
@@ -201,9 +259,8 @@ def check_case(case, ctx):
         elif kind == "r":
             d.reset()
             model = ref(inst)
-            recs = [x for x in expected_subs if isinstance(x, Recorder)]
             got = [(e[0], e[1]) for e in LOG]
-            want = [(id(x), "reset") for x in recs]
+            want = [(a, b) for (a, b, _c) in round_expectation("reset", None)]
             ctx.check(got == want, "reset-notifications", f"{where}: got {got} expected {want}")
             if hist is not None:
                 del hist[1][:]
@@ -236,11 +293,28 @@ def check_case(case, ctx):
                 o = IsReadyObserver(d, subscribe=ev[2])
             elif which == 3:
                 o = RemainingOperationsObserver(d, subscribe=ev[2], feature_types=[FeatureType.JOBS])
+            elif which == 5:
+                o = RecFeature(d, subscribe=ev[2], feature_types=[FeatureType.JOBS])
+                created.append(o)
+                intervals[id(o)] = []
             else:
-                o = CompositeFeatureObserver(d, subscribe=ev[2], feature_observers=[x for x in builtins if not isinstance(x, CompositeFeatureObserver)][:2])
+                kids = [x for x in builtins if not isinstance(x, CompositeFeatureObserver)]
+                o = CompositeFeatureObserver(d, subscribe=ev[2], feature_observers=kids[-2:])
             builtins.append(o)
             if ev[2]:
                 expected_subs.append(o)
+        elif kind == "plan":
+            cands = [x for x in created if isinstance(x, Recorder)]
+            if not cands:
+                continue
+            o = cands[ev[1] % len(cands)]
+            if o.quit_at is not None:
+                continue
+            vict = cands[ev[3] % len(cands)]
+            o.victim = None if vict is o else vict
+            o.quit_at = model_calls.get(id(o), 0) + ev[2]
+            # keep the real counter aligned with the model's
+            o.calls = model_calls.get(id(o), 0)
         elif kind == "unsub":
             cands = [x for x in expected_subs if isinstance(x, Recorder)] + [
                 x for x in expected_subs if any(x is b for b in builtins)
@@ -251,7 +325,11 @@ def check_case(case, ctx):
             d.unsubscribe(o)
             expected_subs[:] = [x for x in expected_subs if x is not o]
         elif kind == "sub":
-            cands = [x for x in created + builtins if not any(x is y for y in expected_subs)]
+            pool_ = []
+            for x in created + builtins:
+                if not any(x is y for y in pool_):
+                    pool_.append(x)
+            cands = [x for x in pool_ if not any(x is y for y in expected_subs)]
             if not cands:
                 continue
             o = cands[ev[1] % len(cands)]
